@@ -170,8 +170,21 @@ def discharge(ob, alg, live, budget, tier):
         if st == 'cex':
             # models of problems without transcendental atoms are exact: confirm with rational arithmetic
             try:
-                ex = T.exact_eval(list(hyps) + [goal], info)
-                if all(ex[h.id] for h in hyps) and not ex[goal.id]:
+                ok_h = True
+                se_f = SampleEval({k: float(v) for k, v in info.items()})
+                from .explore import truth_level
+                for h in hyps:
+                    try:
+                        if not T.exact_eval([h], info)[h.id]:
+                            ok_h = False
+                            break
+                    except (EvalUndefined, ZeroDivisionError, TypeError, ValueError):
+                        # not exactly evaluable (pi, irrational roots): must hold strictly under float evaluation
+                        if truth_level(h, se_f) != 2:
+                            ok_h = False
+                            break
+                ex = T.exact_eval([goal], info)
+                if ok_h and not ex[goal.id]:
                     return done('refuted', 'z3-model(exact rational evaluation)',
                                 witness={k: float(v) for k, v in info.items()},
                                 witness_exact={k: str(v) for k, v in info.items()}, detail='exact counter-model')
